@@ -458,6 +458,7 @@ PROPS["C18"] = dict(
     technique="property-based testing: rapidcheck-generated compile/run sequences; differential against a fresh process and against single-threaded results, under ASan and TSan",
     level_text="Exploration: history independence is attacked directly (fresh-process differential); data races are detected by TSan on executed code, not by enumerating interleavings.",
     level_note="trusted: TSan/ASan runtimes; the serialisation covers every public field of CodegenResult",
+    env={"VERIF_CASE_TIMEOUT": "240"},  # a case is 2-6 compiles + fresh-process compiles + threads, under TSan 5-15x slower
 )
 
 
